@@ -314,63 +314,3 @@ func GlobalHashes() []uint64 {
 	}
 	return out
 }
-
-// Component is a first-level part of a package variable: an element of an array or short
-// slice, a field of a struct (through one pointer, if the variable is a pointer).
-type Component struct {
-	Addr uintptr // 0 = the variable as a whole
-	Hash uint64
-}
-
-// GlobalComponents hashes every registered package variable component by component.
-func GlobalComponents() [][]Component {
-	out := make([][]Component, len(Globals))
-	for i, g := range Globals {
-		out[i] = components(reflect.ValueOf(g.Ptr))
-	}
-	return out
-}
-
-func components(pv reflect.Value) (res []Component) {
-	whole := []Component{{0, 0}}
-	defer func() {
-		if recover() != nil {
-			res = whole
-		}
-	}()
-	if pv.Kind() != reflect.Ptr || pv.IsNil() {
-		return whole
-	}
-	whole[0].Hash = DeepHash(pv.Interface())
-	v := pv.Elem()
-	if skipType(v.Type()) {
-		return whole
-	}
-	if v.Kind() == reflect.Ptr && !v.IsNil() && !skipType(v.Type().Elem()) {
-		v = v.Elem()
-	}
-	switch v.Kind() {
-	case reflect.Array, reflect.Slice:
-		if v.Len() == 0 || v.Len() > 256 {
-			return whole
-		}
-		for i := 0; i < v.Len(); i++ {
-			e := v.Index(i)
-			if !e.CanAddr() {
-				return whole
-			}
-			res = append(res, Component{e.UnsafeAddr(), DeepHash(accessible(e).Addr().Interface())})
-		}
-		return res
-	case reflect.Struct:
-		if !v.CanAddr() || v.NumField() == 0 {
-			return whole
-		}
-		for i := 0; i < v.NumField(); i++ {
-			f := accessible(v.Field(i))
-			res = append(res, Component{f.UnsafeAddr(), DeepHash(f.Addr().Interface())})
-		}
-		return res
-	}
-	return whole
-}
